@@ -188,6 +188,13 @@ static void binary(Ctx &c, const std::string &x, const std::string &y) {
 		expect_str(c, pe, x + y, "operator+=(view)");
 		Str em(f.al); em += vy;
 		expect_str(c, em, y, "+= view on a default-constructed string");
+		// a view without data (default-constructed; what an option that was not given leaves behind) appended to strings with and
+		// without a buffer: afterwards the string owns a terminated buffer like after any other append
+		{ Str n1(f.al); n1 += View(); expect_str(c, n1, "", "+= of a default-constructed view on a default-constructed string");
+		  Str n2(f.al); n2 += View(n2); expect_str(c, n2, "", "s += view(s) on a default-constructed string");
+		  Str n3(sx); n3 += View(); expect_str(c, n3, x, "+= of a default-constructed view");
+		  Str n4(f.al); Str n5 = n4 + View(); expect_str(c, n5, "", "default-constructed string + default-constructed view");
+		  Str n6(f.al); n6 += View(); n6 += vy; expect_str(c, n6, y, "+= view after += of a default-constructed view"); }
 		Str em2(f.al); Str es = em2 + vy;
 		expect_str(c, es, y, "default-constructed + view");
 		// assignment from a C-string pointer into the string's own buffer ("let a C API fill the buffer, then cut at the NUL")
